@@ -29,6 +29,20 @@ def wr (b : List UInt8) (i : Nat) (v : UInt8) : List UInt8 :=
 /-- table lookup `t[i]` in a file-scope constant array (index outside the table: `0`) -/
 @[inline] def tbl {α : Type} [Inhabited α] (t : Array α) (i : Nat) : α := t.getD i default
 
+/-- the `n` bytes at `b + off` (what `ly_write_(out, b + off, n)` appends) -/
+def rdn (b : List UInt8) (off n : Nat) : List UInt8 := (List.range n).map (fun i => rd b (off + i))
+
+/-- `printf("%.<prec>X", v)`: upper-case hexadecimal, at least `prec` digits -/
+def fmtX (prec : Nat) (v : UInt32) : List UInt8 :=
+  let ds := (Nat.toDigits 16 v.toNat).map (fun c => UInt8.ofNat c.toUpper.toNat)
+  List.replicate (prec - ds.length) 48 ++ ds
+
+/-- libc `iscntrl` in the C locale (modelled, not verified): non-zero for 0–31 and 127 -/
+def iscntrl (c : Int32) : Int32 := if (0 ≤ c ∧ c < 32) ∨ c = 127 then 1 else 0
+
+/-- libc `isdigit` (modelled, not verified) -/
+def isdigit (c : Int32) : Int32 := if 48 ≤ c ∧ c ≤ 57 then 1 else 0
+
 inductive Flow (ρ σ : Type) where
   | ret : ρ → Flow ρ σ
   | next : σ → Flow ρ σ
